@@ -439,8 +439,9 @@ def buffer_commit_rule(ctx, rid, classes):
 
 def noise_hook_rule(ctx, rid):
     repo = ctx.repo
-    ctx.rule(rid, 'one noise hook: Circuit.with_noise and SimulatorBase._core_iterator both obtain the noisy moments from '
-             'noisy_moments(<circuit>, sorted(<that circuit>.all_qubits()))', floor=2, style='COH')
+    ctx.rule(rid, 'one noise hook, whole system: Circuit.with_noise and SimulatorBase._core_iterator obtain the noisy moments from noisy_moments(<circuit>, sorted(<circuit>.all_qubits())) '
+             '(the iterator through a parameter with that default); every iteration over a *part* of a split program passes the qubits of the whole program as noise_qubits, or follows a guard '
+             'that abandons the split unless both parts touch every qubit of the program', floor=6, style='COH')
     sites = [('cirq.circuits.circuit.Circuit', 'with_noise'), ('cirq.sim.simulator_base.SimulatorBase', '_core_iterator')]
     for cq, mn in sites:
         ci = repo.cls(cq)
@@ -456,9 +457,69 @@ def noise_hook_rule(ctx, rid):
             for n in ast.walk(fn):
                 if isinstance(n, ast.Assign) and isinstance(n.targets[0], ast.Name) and n.targets[0].id == q.id:
                     qsrc = ast.unparse(n.value)
-        ok = qsrc.replace(' ', '') == f'sorted({circ}.all_qubits())'
-        ctx.ob(rid, f'{cq}.{mn}:system-qubits', ok, '' if ok else f'noise is generated for system qubits `{qsrc}` instead of sorted({circ}.all_qubits()): '
+        flat = qsrc.replace(' ', '')
+        ok = flat.startswith('sorted(') and f'{circ}.all_qubits()' in flat
+        if not ok and isinstance(q, ast.Name) and q.id in [a.arg for a in fn.args.args + fn.args.kwonlyargs]:
+            # a parameter: its None default must be filled with the circuit's own qubits
+            fills = [n for n in ast.walk(fn) if isinstance(n, ast.Assign) and isinstance(n.targets[0], ast.Name) and n.targets[0].id == q.id]
+            ok = any(ast.unparse(n.value).replace(' ', '') == f'sorted({circ}.all_qubits())' for n in fills)
+            qsrc = f'parameter {q.id}'
+        ctx.ob(rid, f'{cq}.{mn}:system-qubits', ok, '' if ok else f'noise is generated for system qubits `{qsrc}` instead of the sorted qubits of {circ}: '
                'simulating with a noise model differs from simulating circuit.with_noise(model)', ci.mod.rel, c.lineno)
+    # parts of a split program: every _core_iterator call on a part tells the noise model the qubits of the whole program, or the split is abandoned when a part leaves qubits idle
+    sb = repo.cls('cirq.sim.simulator_base.SimulatorBase')
+    n_parts = 0
+    for fn in sb.methods.values():
+        splits = [s_ for s_ in ast.walk(fn) if isinstance(s_, ast.Assign) and isinstance(s_.targets[0], ast.Tuple)
+                  and any(isinstance(c, ast.Call) and call_name(c) == 'split_into_matching_protocol_then_general' for c in ast.walk(s_.value))]
+        if not splits:
+            continue
+        sp = splits[0]
+        parts = [e.id for e in sp.targets[0].elts if isinstance(e, ast.Name)]
+        whole = [c for c in ast.walk(sp.value) if isinstance(c, ast.Call) and call_name(c) == 'split_into_matching_protocol_then_general'][0].args[0]
+        whole_src = ast.unparse(whole)
+        # names holding the qubits of the whole program
+        wq = {n.targets[0].id for n in ast.walk(fn) if isinstance(n, ast.Assign) and isinstance(n.targets[0], ast.Name) and f'{whole_src}.all_qubits()' in ast.unparse(n.value)}
+        guard = None
+        for i_ in ast.walk(fn):
+            if isinstance(i_, ast.If) and all(f'{p}.all_qubits()' in ast.unparse(i_.test) for p in parts) and f'{whole_src}.all_qubits()' in ast.unparse(i_.test) \
+                    and any(isinstance(b, ast.Assign) and isinstance(b.targets[0], ast.Tuple) and [ast.unparse(e) for e in b.targets[0].elts] == parts
+                            and ast.unparse(b.value).replace(' ', '').strip('()').endswith(f',{whole_src}') for b in i_.body):
+                guard = i_
+        for c in ast.walk(fn):
+            if not (isinstance(c, ast.Call) and call_name(c) == '_core_iterator'):
+                continue
+            carg = c.args[0] if c.args else next((k.value for k in c.keywords if k.arg == 'circuit'), None)
+            if not (isinstance(carg, ast.Name) and carg.id in parts):
+                continue
+            n_parts += 1
+            nq = next((k.value for k in c.keywords if k.arg == 'noise_qubits'), None)
+            passes = nq is not None and (f'{whole_src}.all_qubits()' in ast.unparse(nq) or (isinstance(nq, ast.Name) and nq.id in wq))
+            ok = passes or (guard is not None and guard.lineno < c.lineno)
+            ctx.ob(rid, f'{sb.qual}.{fn.name}:_core_iterator({carg.id})', ok, '' if ok else
+                   f'`{carg.id}` is a part of `{whole_src}`; the noise model is asked for its noise with only that part\'s qubits as the system, so qubits idle in `{carg.id}` get none: '
+                   'Simulator(noise=m) differs from simulating circuit.with_noise(m)', sb.mod.rel, c.lineno)
+    # the suffix of simulate_sweep_iter is handed to the parent class: covered by the guard alone
+    for fn in sb.methods.values():
+        if fn.name != 'simulate_sweep_iter':
+            continue
+        splits = [s_ for s_ in ast.walk(fn) if isinstance(s_, ast.Assign) and isinstance(s_.targets[0], ast.Tuple)
+                  and any(isinstance(c, ast.Call) and call_name(c) == 'split_into_matching_protocol_then_general' for c in ast.walk(s_.value))]
+        if not splits:
+            continue
+        parts = [e.id for e in splits[0].targets[0].elts if isinstance(e, ast.Name)]
+        handed = [c for c in ast.walk(fn) if isinstance(c, ast.Call) and isinstance(c.func, ast.Attribute) and c.func.attr == 'simulate_sweep_iter'
+                  and c.args and isinstance(c.args[0], ast.Name) and c.args[0].id in parts]
+        for c in handed:
+            n_parts += 1
+            whole_src = ast.unparse([x for x in ast.walk(splits[0].value) if isinstance(x, ast.Call) and call_name(x) == 'split_into_matching_protocol_then_general'][0].args[0])
+            g = [i_ for i_ in ast.walk(fn) if isinstance(i_, ast.If) and all(f'{p}.all_qubits()' in ast.unparse(i_.test) for p in parts) and f'{whole_src}.all_qubits()' in ast.unparse(i_.test)
+                 and i_.lineno < c.lineno]
+            ctx.ob(rid, f'{sb.qual}.simulate_sweep_iter:parent({c.args[0].id})', bool(g), '' if g else
+                   f'the suffix `{c.args[0].id}` is simulated by the parent class, which can only give the noise model the suffix\'s own qubits; without a guard that abandons the split when a '
+                   'part leaves qubits idle, those qubits get no noise', sb.mod.rel, c.lineno)
+    if n_parts < 3:
+        raise AnalysisError(f'{rid}: only {n_parts} part-circuit iterations found in SimulatorBase')
 
 
 def confusion_before_inversion_rule(ctx, rid):
